@@ -142,4 +142,54 @@ example : ∀ op ∈ [Op.put [] (List.replicate 31 1), .put [0x10] (List.replica
     .put [0x10, 0x01] (List.replicate 33 3), .put [0x10] [7], .del [0x10, 0x01], .del [0x55],
     .get [0x10]], op.inSession = true := by decide
 
+/-! ### non-vacuity of `DecodesTrie` -/
+
+def toyH : Bytes → Bytes := fun b => List.replicate 31 0 ++ [UInt8.ofNat b.length]
+def toyC : Cfg := { H := toyH, dec := decodeNode, ver := Ver.v1 }
+
+def l1 : Trie := leaf [] [1]
+def l2 : Trie := leaf [2, 3] (List.replicate 40 7)
+def exCs : Nib → Trie := fun i => if i = 0 then l1 else if i = 1 then l2 else nil
+def exT : Trie := branch [1] (some [9]) exCs
+
+theorem exT_dec : decodeNode (encodeNode Ver.v1 toyH exT) = some (viewOf Ver.v1 toyH exT) := by
+  have h : decodeNode (encodeNode Ver.v1 toyH exT) =
+      some (.branch [1] (some (.inl [9]))
+        (kidsFn [(0, .inl [64, 4, 1]), (1, .hashed (List.replicate 31 0 ++ [34]))])) := by rfl
+  rw [h]
+  have hk : kidsFn [(0, EKid.inl [64, 4, 1]), (1, EKid.hashed (List.replicate 31 0 ++ [34]))] =
+      fun i => viewKid Ver.v1 toyH (exCs i) := by
+    funext i
+    revert i
+    decide
+  rw [hk]
+  rfl
+
+/-- non-vacuity of the decoder hypothesis: the decoder of the model (`decodeNode`, the one the
+    driver runs) satisfies `DecodesTrie` on a trie with an inline value, an inlined child, a hashed
+    child and a hashed (40-byte, V1) value -/
+example : DecodesTrie toyC exT := by
+  refine ⟨rfl, ?_⟩
+  intro n hn
+  simp only [exT, NodeOf] at hn
+  rcases hn with rfl | ⟨i, hi⟩
+  · exact exT_dec
+  · by_cases h0 : i = 0
+    · subst h0
+      have : exCs 0 = l1 := rfl
+      rw [this] at hi
+      simp only [l1, NodeOf] at hi
+      subst hi
+      rfl
+    · by_cases h1 : i = 1
+      · subst h1
+        have : exCs 1 = l2 := rfl
+        rw [this] at hi
+        simp only [l2, NodeOf] at hi
+        subst hi
+        rfl
+      · have : exCs i = nil := by simp [exCs, h0, h1]
+        rw [this] at hi
+        exact absurd hi (by simp [NodeOf])
+
 end Gossamer.C06
